@@ -279,6 +279,10 @@ def build(text, mode, tdefs, custom, ignore_case, passthrough, prefix_mode=False
                 kw["table"] = T.create_table(pg, prefer_shifts=True, prefer_shifts_over_empty=True)
         return pg, pgx.lr(pg, **kw)
     if mode == "glr":
+        if pretable:
+            # the table of another GLR parser handed over: the GLR defaults (no lexical disambiguation) stay
+            first = pgx.glr(pg, **kw)
+            return pg, pgx.glr(pg, table=first.table, **kw)
         return pg, pgx.glr(pg, **kw)
     return pg, pgx.glr(pg, lexical_disambiguation=True, **kw)
 
@@ -326,7 +330,7 @@ def one_grammar(ctx, mon, gi):
             ctx.count("mode.custom_recognition")
         if prefix_mode:
             ctx.count("mode.consume_input_off")
-        if pretable and mode == "lr":
+        if pretable and mode in ("lr", "glr"):
             ctx.count("mode.precomputed_table")
         for d in tdefs.values():
             ctx.count("kind." + d.kind)
